@@ -35,24 +35,27 @@ def doDispatch (l : Line) : Option String := do
   let oa ← match ← l.get? "out" with
     | "none" => some OArg.none | "in" => some (OArg.inRange 1) | "foreign" => some OArg.foreign
     | _ => none
-  let leaf := synthLeaf sg ret raw (fun v i => 2.0 * v i + 1.0)
+  let leaf := synthLeaf sg ret raw fn (fun v i => 2.0 * v i + 1.0)
   let s0 : St Float := { mem := fun b => if b = 0 then vecOf xv else if b = 1 then vecOf yv
                                           else fun _ => nanF, next := 2 }
   let dump (s : St Float) (b : Nat) := showList showBits ((List.range n).map (s.mem b))
-  match call (fun _ _ => nanF) fn (.leaf leaf) xa oa s0 with
+  match call (fun _ _ => nanF) (.leaf leaf) xa oa s0 with
   | .err e _ => some (showErr e)
   | .ok r s => some s!"ok isout={if r = 1 then 1 else 0} val={dump s r} x={dump s 0} y={dump s 1}"
 
 /-- Context for leaves of a tree line: program parameters and closed-over data. -/
 structure TreeCtx where
+  n : Nat
   fns : Fns Float
   par : Par Float
   data : Nat → Vec Float
 
 /-- Prefix-notation tree, tokens separated by `,`:
 `S` sum, `C` comp, `P` pwprod (2 children); `V:vec` vecsum, `l:c` lscal, `r:c` rscal,
-`lv:vec` lvec, `rv:vec` rvec (1 child); leaves `scal:c`, `const:vec`, `mult:vec`, `pow:p`,
-`zero`, `modsq`, `prox:ID:FLAGS`. Vectors are `|`-separated bit patterns. -/
+`lv:vec` lvec, `rv:vec` rvec, `fl:vec` FunctionalLeftVectorMult (1 child); leaves `scal:c`,
+`const:vec`, `mult:vec`, `pow:p`, `zero`, `modsq`, `real` (RealPart on a real space: returns
+its argument), `inner:vec` (InnerProductOperator, a functional), `fmult:vec` (MultiplyOperator
+with a field domain), `prox:ID:FLAGS`. Vectors are `|`-separated bit patterns. -/
 partial def parseTree (cx : TreeCtx) : List String → Option (Op Float × List String)
   | [] => none
   | tok :: rest =>
@@ -73,6 +76,14 @@ partial def parseTree (cx : TreeCtx) : List String → Option (Op Float × List 
     | ["r", c] => do let c ← parseBits c; one (.rscal · c)
     | ["lv", v] => do let a ← parseVecBits v; one (.lvec · (vecOf a))
     | ["rv", v] => do let a ← parseVecBits v; one (.rvec · (vecOf a))
+    | ["fl", v] => do let a ← parseVecBits v; one (.flvm · (vecOf a))
+    | ["real"] =>
+        some (.leaf { sig := .oop, fn := false, raw := false, phi := id, oop := fun x s => (x, s),
+                      ip := fun _ _ s => (.none, s) }, rest)
+    | ["inner", v] => do
+        let a ← parseVecBits v
+        some (.leaf (funcLeaf fun x => sumN cx.n (fun i => x i * (vecOf a) i)), rest)
+    | ["fmult", v] => do let a ← parseVecBits v; some (.leaf (scalarMultLeaf (vecOf a)), rest)
     | ["scal", c] => do let c ← parseBits c; some (.leaf (scalingLeaf c), rest)
     | ["const", v] => do let a ← parseVecBits v; some (.leaf (constLeaf (vecOf a)), rest)
     | ["mult", v] => do let a ← parseVecBits v; some (.leaf (multLeaf (vecOf a)), rest)
@@ -104,7 +115,7 @@ def doTree (l : Line) : Option String := do
   let data : Nat → Vec Float := fun b =>
     match b with
     | 2 => vecOf g | 3 => vecOf sig | 4 => vecOf lo | 5 => vecOf up | _ => fun _ => nanF
-  let cx : TreeCtx := { fns := floatFns n 1 1.0 2.0, par := par, data := data }
+  let cx : TreeCtx := { n := n, fns := floatFns n 1 1.0 2.0, par := par, data := data }
   let toks := (← l.get? "t").splitOn ","
   let (e, rest) ← parseTree cx toks
   if !rest.isEmpty then none
@@ -112,19 +123,89 @@ def doTree (l : Line) : Option String := do
                                           else fun _ => nanF, next := 2 }
   let jk : Nat → Vec Float := fun _ _ => nanF
   let res ← match mode with
-    | "oop" => some (call jk false e (.inDomain 0) .none s0)
-    | "ip" => some (call jk false e (.inDomain 0) (.inRange 1) s0)
-    | "alias" => some (call jk false e (.inDomain 0) (.inRange 0) s0)
+    | "oop" => some (call jk e (.inDomain 0) .none s0)
+    | "ip" => some (call jk e (.inDomain 0) (.inRange 1) s0)
+    | "alias" => some (call jk e (.inDomain 0) (.inRange 0) s0)
     | _ => none
   let dump (s : St Float) (b : Nat) := showList showBits ((List.range n).map (s.mem b))
   match res with
   | .err e _ => some (showErr e)
   | .ok r s => some s!"ok val={dump s r} x={dump s 0}"
 
+def parseEntries (cx : TreeCtx) (s : String) : Option (List (Entry Float)) :=
+  if s = "-" then some [] else
+  (s.splitOn "@").mapM fun t =>
+    match t.splitOn "~" with
+    | [r, c, toks] => do
+        let r ← r.toNat?
+        let c ← c.toNat?
+        let (e, rest) ← parseTree cx (toks.splitOn ",")
+        if rest.isEmpty then some ⟨r, c, e⟩ else none
+    | _ => none
+
+def parseVecs (s : String) : Option (Array (Array Float)) :=
+  if s = "-" then some #[] else ((s.splitOn ";").mapM fun t => (parseList parseBits t).map (·.toArray)).map (·.toArray)
+
+/-- `pso kind=pso|bcast|red|proj|projadj mode=oop|ip|alias m=M nc=N n=LEN idx=I entries=r~c~TOKENS@…
+x=v;v;… y=v;v;… <tree context keys>` : the product-space classes. Input components are the
+buffers `0 … nc-1`, output components `nc … nc+m-1` (`alias`: the input components). Answers
+`ok vals=v;v;… x=v;v;…`. -/
+def doPso (l : Line) : Option String := do
+  let kind ← l.get? "kind"
+  let mode ← l.get? "mode"
+  let m ← l.nat? "m"
+  let nc ← l.nat? "nc"
+  let n ← l.nat? "n"
+  let idx := (l.nat? "idx").getD 0
+  let xs ← l.get? "x" >>= parseVecs
+  let ys ← l.get? "y" >>= parseVecs
+  let par : Par Float := {
+    lam := ← l.f? "lam", sigma := ← l.f? "sigma", gamma := ← l.f? "gamma",
+    radius := ← l.f? "radius", eps := ← l.f? "eps", a := 1.0, b := 1.0 }
+  let g ← l.fs? "g"
+  let sig ← l.fs? "sig"
+  let lo ← l.fs? "lo"
+  let up ← l.fs? "up"
+  let data : Nat → Vec Float := fun b =>
+    match b with
+    | 2 => vecOf g | 3 => vecOf sig | 4 => vecOf lo | 5 => vecOf up | _ => fun _ => nanF
+  let cx : TreeCtx := { n := n, fns := floatFns n 1 1.0 2.0, par := par, data := data }
+  let entries ← l.get? "entries" >>= parseEntries cx
+  let s0 : St Float := {
+    mem := fun b => if b < nc then vecOf (xs.getD b #[]) else
+                    if b < nc + m then vecOf (ys.getD (b - nc) #[]) else fun _ => nanF,
+    next := nc + m }
+  let jk : Nat → Vec Float := fun _ _ => nanF
+  let x : Nat → Nat := fun j => j
+  let yIP : Nat → Nat := fun i => nc + i
+  let dump (s : St Float) (b : Nat) := showList showBits ((List.range n).map (s.mem b))
+  let dumpAll (s : St Float) (f : Nat → Nat) (k : Nat) := ";".intercalate ((List.range k).map fun i => dump s (f i))
+  let finish (s : St Float) (out : Nat → Nat) (k : Nat) : Option String :=
+    some s!"ok vals={dumpAll s out k} x={dumpAll s x nc}"
+  match kind, mode with
+  | "proj", "oop" => let (r, s) := compProjO idx x s0; finish s (fun _ => r) 1
+  | "proj", "ip" => finish (compProjI idx x nc s0) (fun _ => nc) 1
+  | "projadj", "oop" => finish (compProjAdjO m idx 0 s0) (fun i => s0.next + i) m
+  | "projadj", "ip" => finish (compProjAdjI m idx 0 yIP s0) yIP m
+  | _, "oop" =>
+      match psoO jk m entries x s0 with
+      | .err e _ => some (showErr e)
+      | .ok _ s => finish s (fun i => s0.next + i) m
+  | _, "ip" =>
+      match psoI jk m entries x yIP s0 with
+      | .err e _ => some (showErr e)
+      | .ok _ s => finish s yIP m
+  | _, "alias" =>
+      match psoI jk m entries x x s0 with
+      | .err e _ => some (showErr e)
+      | .ok _ s => finish s x m
+  | _, _ => none
+
 def handle (l : Line) : Option String :=
   match l.op with
   | "dispatch" => doDispatch l
   | "tree" => doTree l
+  | "pso" => doPso l
   | _ => none
 
 def main : IO Unit := driverLoop handle
